@@ -79,6 +79,25 @@ def PM.result (m : PM) (negative : Bool) (o : Nat) : Nat :=
     | none => 0
   if negative then (raw + 1) % 2 else raw
 
+/-! ### Allocation state along a trace (for repeated use) -/
+
+/-- effect of one event on the list of live virtual qubit ids; `none` = the controller faults
+(operand not allocated / already allocated) -/
+def evLive (live : List Nat) : TEv → Option (List Nat)
+  | .gate i => if i.qs.all (fun q => live.contains q) then some live else none
+  | .qalloc q => if live.contains q then none else some (q :: live)
+  | .init q => if live.contains q then some live else none
+  | .meas q => if live.contains q then some live else none
+  | .qfree q => if live.contains q then some (live.erase q) else none
+
+def runLive : List Nat → List TEv → Option (List Nat)
+  | live, [] => some live
+  | live, e :: rest => (evLive live e).bind fun l => runLive l rest
+
+/-- the trace of consecutive `parity_meas` calls on the same `n` qubits -/
+def parityMeasSeq (n : Nat) (calls : List (List P1)) : List TEv :=
+  calls.flatMap fun b => (parityMeas b).trace n
+
 /-! ### Toffoli target -/
 
 /-- the Toffoli gate on qubits (control1, control2, target) = (0, 1, 2): exchanges |110⟩ and |111⟩ -/
